@@ -39,6 +39,8 @@ def main(argv):
     ap.add_argument("--only", default=None, help="run only harnesses whose name contains this")
     ap.add_argument("--jobs", type=int, default=None)
     ap.add_argument("--no-evidence", action="store_true")
+    ap.add_argument("--no-transport", action="store_true", help="calibration runs: do not replay counterexamples")
+    ap.add_argument("--dump", default=None, help="write per-harness verdicts to this JSON file")
     a = ap.parse_args(argv)
     pid = a.pid
     tier = a.tier if a.tier in ("quick", "thorough") else "quick"
@@ -68,6 +70,24 @@ def main(argv):
     for g in sorted(set(s.group for s in specs)):
         gs = [s for s in specs if s.group == g]
         res, wall, logtxt = runner.run_group(gs, g, tier, "%s_%s" % (pid, tier), jobs=a.jobs, default_timeout=qcap)
+        # a crash of kani-driver / cbmc loses the whole batch: isolate by re-running in small chunks
+        lost = [s for s in gs if res[s.name]["status"] == "error" and "no JSON" in str(res[s.name].get("reason"))]
+        if lost and len(gs) > 1 and "error: could not compile" not in logtxt and "error[E" not in logtxt:
+            chunk = 6
+            for k in range(0, len(lost), chunk):
+                sub = lost[k:k + chunk]
+                r2, w2, l2 = runner.run_group(sub, g, tier, "%s_%s_retry%d" % (pid, tier, k), jobs=a.jobs, default_timeout=qcap)
+                still = [s for s in sub if r2[s.name]["status"] == "error" and "no JSON" in str(r2[s.name].get("reason"))]
+                if still and len(sub) > 1:
+                    for s1 in still:
+                        r3, w3, l3 = runner.run_group([s1], g, tier, "%s_%s_single" % (pid, tier), jobs=1, default_timeout=qcap)
+                        if r3[s1.name]["status"] == "error":
+                            r3[s1.name]["status"] = "undecided"
+                            r3[s1.name]["reason"] = "kani-driver/cbmc crashed on this harness (no verdict)"
+                        r2.update(r3)
+                        wall += w3
+                res.update(r2)
+                wall += w2
         results.update(res)
         walls[g] = wall
 
@@ -98,6 +118,8 @@ def main(argv):
                 # same entry point and same failing check as two counterexamples already replayed
                 tr = dict(transported[cls][0])
                 tr["same_class_as"] = transported[cls][0].get("harness")
+            elif a.no_transport:
+                tr = dict(reproduced=None, reason="--no-transport")
             else:
                 tr = replay.transport(pid, s, r, ws)
                 tr["harness"] = s.name
@@ -125,6 +147,10 @@ def main(argv):
             undecided.append((s, r))
 
     wall = time.time() - t0
+    if a.dump:
+        json.dump({s.name: dict(status=results[s.name]["status"], reason=results[s.name].get("reason"),
+                                dur=results[s.name].get("duration_ms"), failed=results[s.name].get("failed_checks"),
+                                artefacts=results[s.name].get("n_memory_artefacts")) for s in specs}, open(a.dump, "w"), indent=1)
     decided = [s for s in specs if results[s.name]["status"] in ("pass", "fail")]
     # ---- evidence ------------------------------------------------------------------------------
     if not a.no_evidence and not a.only:
